@@ -1778,3 +1778,45 @@ def predefined_models(mk, name):
                   mk.const(H.build_dense(sector={labels[0]: ka, labels[1]: kb})), mk.const(want))
             mk.eq(f"U1U1 sector=({ka}, {kb}): build_sparse_matrix(sector=)",
                   mk.const(H.build_sparse_matrix(sector=(ka, kb)).toarray()), mk.const(want))
+
+
+# ---------------------------------------------------------------------- builder histories
+
+@obligation(PROP)
+def builder_history_no_stale_cache(mk):
+    """every representation built after a term was added / cancelled / re-added equals the one of a fresh
+    builder holding the same terms: what was built earlier must never be served stale"""
+    mk.encodes(SparseOperatorBuilder.add_term, SparseOperatorBuilder.build_dense, SparseOperatorBuilder.build_sparse_matrix,
+               SparseOperatorBuilder.matvec, SparseOperatorBuilder.get_coupling_map)
+    base = [(1.0, ("z", 0), ("z", 1)), (0.5, ("x", 1)), (0.25, ("+", 0), ("-", 2)), (0.25, ("-", 0), ("+", 2))]
+    extra = [(0.75, ("x", 1)), (-0.5, ("x", 1)), (-0.25, ("+", 0), ("-", 2)), (2.0, ("x", 2)), (-2.0, ("x", 2)), (-1.0, ("z", 0), ("z", 1))]
+
+    def fresh(terms):
+        H = SparseOperatorBuilder(hilbert_space=HilbertSpace(3))
+        for t in terms:
+            H += t
+        return H
+
+    def reps(H):
+        x = np.arange(1.0, 9.0)
+        out = {"dense": np.asarray(H.build_dense()), "sparse": np.asarray(H.build_sparse_matrix().todense()), "matvec": np.asarray(H.matvec(x.copy()))}
+        ik = H.build_matrix_ikron()
+        if ik is not None:
+            out["ikron"] = np.asarray(ik.todense() if hasattr(ik, "todense") else ik)
+        return out
+
+    for k in range(len(extra)):
+        for j in range(len(extra)):
+            if j == k:
+                continue
+            H = fresh(base)
+            reps(H)                                   # warm every cache
+            hist = list(base)
+            for t in (extra[k], extra[j]):
+                H += t
+                hist.append(t)
+                got, want = reps(H), reps(fresh(hist))
+                for name in want:
+                    if name in got:
+                        mk.eq(f"after adding {extra[k]} then {extra[j]}: {name} == fresh builder with the same terms (last added {t})",
+                              mk.const(got[name]), mk.const(want[name]))
